@@ -188,10 +188,12 @@ class Gen:
             if rng.random() < 0.5:
                 st["between"] = [self.step(allow_fail=False) for _ in range(rng.randrange(1, 3))]
             sc = self.ext("callback")
-            if sc["outcome"] == "timeout" or rng.random() < 0.2:
+            if sc["outcome"] == "timeout":
                 st["cfg"] = {"timeout": rng.choice([1, 3, 30])}
-                if sc["outcome"] == "timeout":
-                    sc["outcome"] = "never"
+                sc["outcome"] = "never"
+            elif rng.random() < 0.2:
+                # the external party answers: the timeout is far away, so that crashes and latency never decide the race
+                st["cfg"] = {"timeout": rng.choice([900, 7200])}
             st["_ext"] = sc
             return self.wrap_try(st, 0.8)
         if k == "wfc":
@@ -200,10 +202,11 @@ class Gen:
                 st["retry"] = gen_retry(rng, prof)
             sc = self.ext("callback")
             sc["on_submit"] = True
-            if sc["outcome"] == "timeout" or rng.random() < 0.2:
+            if sc["outcome"] == "timeout":
                 st["cfg"] = {"timeout": rng.choice([2, 5, 30])}
-                if sc["outcome"] == "timeout":
-                    sc["outcome"] = "never"
+                sc["outcome"] = "never"
+            elif rng.random() < 0.2:
+                st["cfg"] = {"timeout": rng.choice([900, 7200])}
             st["_ext"] = sc
             return self.wrap_try(st, 0.8)
         if k == "invoke":
